@@ -54,7 +54,36 @@ def channel_abs_sums(opn, w, adj_y):
   return None
 
 
+def tied_case(ctx, case, rng):
+  """Tied constants (one tensor / one buffer with several consumers) with a float-compute rule per consumer."""
+  import re
+  from vf.props import c15
+  kind = ['same_tensor', 'same_buffer', 'tied_embedding'][case % 3]
+  k = 2 if kind == 'tied_embedding' else int(rng.integers(2, 4))
+  spec, consumers = c15.build(rng, kind, k)
+  datasets = {s['key']: [gdata.sample(rng, s, 'normal') for _ in range(3)] for s in spec.signatures}
+  ok, _ = common.admit(spec, datasets)
+  if not ok:
+    return {'outcome': 'skipped', 'reason': 'generator_reject'}
+  src = models.read(spec.content)
+  pool = ['drq8_cw', 'drq8_tw', 'wo8a_cw', 'wo8s_tw', 'wo4s_cw', 'fp16', 'noq', None]
+  rules = [(re.escape(out), sel, str(c)) for (sel, out), c in zip(consumers, [pool[int(rng.integers(len(pool)))] for _ in consumers]) if c is not None]
+  if not rules:
+    return {'outcome': 'skipped', 'reason': 'no_rule'}
+  run = common.pipeline(spec, datasets, rules=rules)
+  ctx.count('tied_constant_cases')
+  if run.phase == 'no_rule_accepted':
+    return {'outcome': 'skipped', 'reason': 'no_rule_accepted'}
+  if run.exc is not None:
+    ctx.count('tied_constant_rejected')
+    return {'outcome': 'skipped', 'reason': 'quantize_raised'}
+  ctx.count('tied_constant_returned')
+  return validate(ctx, spec, src, run, run.accepted, datasets)
+
+
 def run_case(ctx, case, rng):
+  if case % 7 == 3:
+    return tied_case(ctx, case, rng)
   spec = models.model_for_case(rng, multi_sub_p=0.1, template_p=0.2)
   datasets = {s['key']: [gdata.sample(rng, s, str(rng.choice(['normal', 'scaled', 'positive']))) for _ in range(3)] for s in spec.signatures}
   ok, _ = common.admit(spec, datasets)
